@@ -4,7 +4,7 @@
 cd /verif; ./run.sh build >/dev/null 2>&1
 ROOT=${1:-/verif/benign}; N=${2:-8}
 export GOFLAGS=-mod=mod GOPROXY=off GOSUMDB=off GOTOOLCHAIN=local; unset GOWORK
-mkdir -p /tmp/refpar; ls $ROOT/*/patch.diff | sort > /tmp/refpar/all.txt
+mkdir -p /tmp/refpar; cp /verif/bin/gmverif /tmp/refpar/gmverif; ls $ROOT/*/patch.diff | sort > /tmp/refpar/all.txt
 shard() {
   k=$1; WT=/tmp/refpar/wt$k; V=/tmp/refpar/v$k
   git -C /repo worktree remove --force $WT 2>/dev/null; git -C /repo worktree add -q --detach $WT HEAD || exit 3
@@ -12,7 +12,7 @@ shard() {
   awk -v n=$N -v k=$k 'NR%n==k' /tmp/refpar/all.txt | while read p; do
     id=$(basename $(dirname $p))
     if git -C $WT apply $p 2>/dev/null; then
-      /verif/bin/gmverif check -prop all -tier quick -repo $WT -verif $V > $V/$id.out 2>&1
+      /tmp/refpar/gmverif check -prop all -tier quick -repo $WT -verif $V > $V/$id.out 2>&1
       git -C $WT checkout -q -- . ; git -C $WT clean -fdq
       v=$(grep -c "^VIOLATION" $V/$id.out); u=$(grep -c "^UNDECIDED" $V/$id.out)
       echo "$id violations=$v undecided=$u $(grep -A1 '^VIOLATION' $V/$id.out | grep -o 'rule=[A-Za-z0-9-]*' | sort -u | tr '\n' ' ') $(grep '^UNDECIDED' $V/$id.out | sed 's/UNDECIDED property=\(C[0-9]*\).*/\1/' | sort -u | tr '\n' ' ')"
